@@ -204,6 +204,9 @@ def run_check(mod, argv):
     if a.replay:
         return mod.replay(ctx, a.replay)
 
+    import glob
+    for old_replay in glob.glob(os.path.join(WORK, "replay", mod.PID + "_*.json")):
+        os.remove(old_replay)
     breaks = []        # list of dicts describing what no longer checks
     violations = []    # list of (what, replay_path, found_input: bool)
     corr = None
